@@ -49,6 +49,27 @@ def walk_coherent(x, path=()):
     out = []
     bs = list(x.batch_size)
     dev = x.device
+    if hasattr(x, "tensordicts") and hasattr(x, "stack_dim"):
+        # a lazy stack: its members are walked one by one (stacking heterogeneous entries is not always possible and is
+        # not the subject here); the stack itself must have the members' batch size with the stack dim inserted
+        sd = x.stack_dim
+        try:
+            names = x.names
+            if len(names) != len(bs):
+                out.append(f"{path}: {len(names)} dim names {names} for batch size {bs}")
+        except ValueError as e:
+            out.append(f"{path}: the dim names of the lazy stack cannot be read: {str(e)[:80]}")
+        members = list(x.tensordicts)
+        if not (0 <= sd < len(bs)) or bs[sd] != len(members):
+            out.append(f"{path}: lazy stack of {len(members)} members along dim {sd} has batch size {bs}")
+        mbs = bs[:sd] + bs[sd + 1:]
+        for i, m in enumerate(members):
+            if list(m.batch_size) != mbs:
+                out.append(f"{path}[{i}]: member batch size {list(m.batch_size)} in a lazy stack of batch size {bs} along dim {sd}")
+            if dev is not None and (m.device is None or m.device.type != dev.type):
+                out.append(f"{path}[{i}]: member on {m.device} in a lazy stack on {dev}")
+            out += walk_coherent(m, path + (f"[{i}]",))
+        return out
     names = x.names
     if len(names) != len(bs):
         out.append(f"{path}: {len(names)} dim names {names} for batch size {bs}")
@@ -231,14 +252,16 @@ def gen_op(rng, state):
     nodes = nodes_of(state)
     h, node = ((), state) if rng.random() < 0.55 else rng.choice(nodes)
     h = tuple(h)
+    if rng.random() < 0.09:
+        return gen_write(rng, h, node)
     if rng.random() < 0.07:
         # restructuring in place (their effect on the mapping is C04's subject; here: the metadata)
         q = rng.random()
         if q < 0.4:
             return ["excludein", h, [list(gen_key(rng, node, 0.7)) for _ in range(rng.randint(1, 3))]]
-        if q < 0.6 or not any("." in k for k, _ in node[4]):
-            return ["flattenin", h, "."]
-        return ["unflattenin", h, "."]
+        if q < 0.6 or not any(("." in k or "::" in k) for k, _ in node[4]):
+            return ["flattenin", h, rng.choice([".", ".", ".", "::", "b.", ""])]
+        return ["unflattenin", h, rng.choice([".", ".", ".", "::", "b.", "b", ""])]
     r = rng.random()
     if r < 0.36:
         key = gen_key(rng, node, 0.35)
@@ -324,6 +347,136 @@ def gen_op(rng, state):
             names = [rng.choice(NAMEPOOL + [None]) for _ in range(rng.randint(0, 4))]
         return ["refine", h, names]
     return ["clear", h]
+
+
+def gen_index(rng, bs):
+    """a basic index into the batch dims: ints, `:k` and `:`; sometimes out of range or too long"""
+    n = len(bs)
+    m = rng.randint(0, n) if rng.random() < 0.9 else n + 1
+    items = []
+    for d in range(m):
+        size = bs[d] if d < n else 1
+        r = rng.random()
+        if r < 0.4:
+            items.append(rng.randrange(size) if size > 0 and rng.random() < 0.9 else size + rng.randint(0, 1))
+        elif r < 0.7:
+            items.append(["s", rng.randint(0, size + 1)])
+        else:
+            items.append(":")
+    return items
+
+
+def index_shape(items, shape):
+    """shape of x[index] (None when torch refuses the index)"""
+    out, rest = [], list(shape)
+    for it in items:
+        if not rest:
+            return None
+        d = rest.pop(0)
+        if isinstance(it, int):
+            if it >= d:
+                return None
+        elif it == ":":
+            out.append(d)
+        else:
+            out.append(min(it[1], d))
+    return out + rest
+
+
+def py_index(items):
+    return tuple(it if isinstance(it, int) else (slice(None) if it == ":" else slice(None, it[1])) for it in items)
+
+
+def gen_write(rng, h, node):
+    """a write into existing storage on the node at handle `h`: set_ / set_at_ / update_ / update_at_ / td[index] = value"""
+    bs, dev = node[1], node[2]
+    ents = node[4]
+    leaves = [(k, c) for k, c in ents if c[0] == "l"]
+    call = rng.choice(["set_", "set_at_", "update_", "update_at_", "setitem_td", "setitem_dict", "setitem_dict", "setitem_tensor"])
+    idx = gen_index(rng, bs)
+    ibs = index_shape(idx, bs)
+
+    def vshape(dest_shape, base):
+        if dest_shape is not None and rng.random() < 0.7:
+            sh = list(base) + list(dest_shape[len(bs):])
+        else:
+            sh = list(base) + [rng.choice(DIMS) for _ in range(rng.randint(0, 2))]
+        if rng.random() < 0.2:
+            sh = mutate_shape(rng, sh)
+        return sh[:5]
+
+    def pick_key(p_exist=0.7):
+        if ents and rng.random() < p_exist:
+            k, c = rng.choice(ents)
+            return k, c
+        return rng.choice(KEYS + ["z"]), None
+    vdev = dev if (dev is not None and rng.random() < 0.8) else rng.choice([0, 0, 1])
+    spec = {"call": call, "idx": idx}
+    if call in ("set_", "set_at_"):
+        k, c = pick_key(0.8)
+        base = bs if call == "set_" else (ibs if ibs is not None else bs)
+        spec.update(key=[k], shape=vshape(c[1] if c is not None and c[0] == "l" else None, base), dev=vdev)
+        if c is not None and c[0] == "n" and c[4] and rng.random() < 0.5:
+            k2, c2 = rng.choice(c[4])
+            spec.update(key=[k, k2], shape=vshape(c2[1] if c2[0] == "l" else None, base))
+    elif call in ("update_", "update_at_"):
+        base = bs if call == "update_" else (ibs if ibs is not None else bs)
+        items = []
+        for _ in range(rng.randint(1, 2)):
+            k, c = pick_key(0.85)
+            items.append([k, vshape(c[1] if c is not None and c[0] == "l" else None, base), vdev])
+        spec.update(items=items)
+    elif call == "setitem_tensor":
+        spec.update(shape=vshape(None, ibs if ibs is not None else bs)[:len(ibs if ibs is not None else bs) + rng.randint(0, 1)], dev=vdev)
+    else:
+        base = ibs if ibs is not None else bs
+        if rng.random() < 0.15:
+            base = mutate_shape(rng, base)
+        items = []
+        for _ in range(rng.randint(1, 3)):
+            k, c = pick_key(0.55)
+            if c is not None and c[0] == "n" and rng.random() < 0.7:
+                # a nested value for a nested tensordict: existing and new keys below
+                sub = []
+                for _ in range(rng.randint(1, 2)):
+                    if c[4] and rng.random() < 0.5:
+                        k2, c2 = rng.choice(c[4])
+                    else:
+                        k2, c2 = rng.choice(KEYS + ["z"]), None
+                    cbase = list(base) + list(c[1][len(bs):])
+                    sub.append([k2, vshape(c2[1][len(c[1]) - len(bs):] if False else None, cbase), vdev])
+                items.append([k, "nested", sub, list(base) + list(c[1][len(bs):])])
+            else:
+                items.append([k, vshape(c[1] if c is not None and c[0] == "l" else None, base), vdev])
+        spec.update(items=items, vbs=list(base), as_td=(call == "setitem_td"))
+    allow_new = call in ("setitem_td", "setitem_dict")
+    return ["write", h, allow_new, None, spec]
+
+
+def run_write(node, spec):
+    """execute the call described by `spec` on the tensordict `node`"""
+    from tensordict import TensorDict
+    z = lambda sh, d: torch.zeros(sh, device=DEVS[d])  # noqa: E731
+    call, idx = spec["call"], py_index(spec["idx"])
+    if call == "set_":
+        node.set_(tuple(spec["key"]), z(spec["shape"], spec["dev"]))
+    elif call == "set_at_":
+        node.set_at_(tuple(spec["key"]), z(spec["shape"], spec["dev"]), idx)
+    elif call == "update_":
+        node.update_({k: z(sh, d) for k, sh, d in spec["items"]})
+    elif call == "update_at_":
+        node.update_at_({k: z(sh, d) for k, sh, d in spec["items"]}, idx)
+    elif call == "setitem_tensor":
+        node[idx] = z(spec["shape"], spec["dev"])
+    else:
+        payload = {}
+        for it in spec["items"]:
+            if it[1] == "nested":
+                sub = {k2: z(sh, d) for k2, sh, d in it[2]}
+                payload[it[0]] = TensorDict(sub, batch_size=it[3]) if spec["as_td"] else sub
+            else:
+                payload[it[0]] = z(it[1], it[2])
+        node[idx] = TensorDict(payload, batch_size=spec["vbs"]) if spec["as_td"] else payload
 
 
 def gen_pv(rng, dest_bs, dev, depth=0):
@@ -458,6 +611,8 @@ def apply_impl(td, op, tlimit=10.0):
                 node.setdefault(tuple(op[2]), op[4])
             elif kind == "refine":
                 node.refine_names(*op[2])
+            elif kind == "write":
+                run_write(node, op[4])
             elif kind == "updatetd":
                 node.update(op[4])
             elif kind == "auto":
@@ -533,6 +688,8 @@ def sx_op(op):
         return f"(excludein {sx_path(op[1])} ({' '.join(sx_path(x) for x in op[2])}))"
     if k in ("flattenin", "unflattenin"):
         return f"({k} {sx_path(op[1])} {hexs(op[2])})"
+    if k == "write":
+        return f"(write {sx_path(op[1])} {'true' if op[2] else 'false'} {sx_tree(op[3])})"
     if k == "updatetd":
         return f"(updatetd {sx_path(op[1])} {sx_tree(op[2])})"
     if k == "auto":
